@@ -15,6 +15,10 @@ different grid step).  After every call the objects are compared bit for bit wit
 pristine copy ("the sampled series is not modified": otherwise the crossings reported
 are not crossings of the series the caller holds) and every call's result is judged
 by the same oracle against the pristine numbers, and by the Coq model.
+
+Steep pairs and long series (check_large, oracle only): one pair of samples crossing 100-5000 levels, rising and
+falling; series of 1500-10000 samples with a crossing in every pair of samples that straddles a multiple of 1000,
+1024, 2048, 4096, 8192; through regrid and build_head_mapping.
 """
 import math
 from fractions import Fraction as F
@@ -77,10 +81,15 @@ def expected_by_pair(x, Y):
     if not Y:
         return []
     lo, hi = math.floor(min(Y)) - 1, math.ceil(max(Y)) + 1
+    # long series / large hulls: the same test over the integers from one below the pair's lower sample to one above
+    # its upper sample (every integer outside that window fails the test below; the window only saves time)
+    local = (len(Y) - 1) * (hi - lo + 1) > 200000
     out = []
     for i in range(len(Y) - 1):
         a, b = F(Y[i]), F(Y[i + 1])
         exp = {}
+        if local:
+            lo, hi = math.floor(min(Y[i], Y[i + 1])) - 1, math.ceil(max(Y[i], Y[i + 1])) + 1
         for k in range(lo, hi + 1):
             if min(a, b) <= k < max(a, b):
                 exp[k] = F(x[i]) + (k - a) * (F(x[i + 1]) - F(x[i])) / (b - a)
@@ -283,6 +292,94 @@ def check_mapping(cases, out, label, extra=()):
             continue
         out.violation('corr', 'model build_head_mapping <> fit_offsets.build_head_mapping (step=%r, series=%s): '
                       'impl=%s' % (kept[i]['step'], kept[i]['series'], str(results[i])[:400]), case=kept[i])
+
+
+# ------------------------------------------------------------- steep pairs and long series (oracle only)
+
+def crossing_stats(Y, out, tag):
+    """What the series exercises, measured on the scaled ordinates: levels crossed by the steepest rising / falling
+    pair, seam pairs (samples b*m - 1 and b*m) that cross a level, per block size b."""
+    c = [math.ceil(v) for v in Y]
+    n = len(Y)
+    up = max([b - a for a, b in zip(c, c[1:])] + [0])
+    down = max([a - b for a, b in zip(c, c[1:])] + [0])
+    for name, d in (('rising', up), ('falling', down)):
+        for lim in (100, 512, 1024, 4096):
+            if d > lim:
+                out.count('%s:pair-%s-across->%d-levels' % (tag, name, lim))
+    for b in G.BLOCK_SIZES:
+        m = sum(1 for p in range(b, n, b) if c[p] != c[p - 1])
+        if m:
+            out.count('%s:seam-pairs-of-block-%d-crossing-a-level' % (tag, b), m)
+    for lim in (1024, 4096, 8192):
+        if n > lim:
+            out.count('%s:samples->%d' % (tag, lim))
+
+
+def short(v, n=6):
+    return '%s%s' % (v[:n], '' if len(v) <= n else ' ... %d values' % len(v))
+
+
+def check_large(items, out):
+    """Steep pairs (100-5000 levels between two samples) and long series (1500-10000 samples), judged by the oracle
+    only: regrid on a series ('fn': 'regrid'), build_head_mapping on a set ('fn': 'mapping').  Not sent to Coq (reading
+    the literals would dominate); the property's wording evaluated with exact fractions is what judges them."""
+    for it in items:
+        step = fl(it['step'])
+        series = [dict(x=[fl(v) for v in s['x']], y=[fl(v) for v in s['y']]) for s in it['series']]
+        case = dict(level='FL-large', fn=it['fn'], cls=it.get('cls', '?'), step=step, series=series)
+        tag = 'FL-large:' + it['fn']
+        out.evaluations += 1
+        out.count('%s:%s' % (tag, it.get('cls', '?')))
+        for s in series:
+            crossing_stats([v / step for v in s['y']], out, tag)
+        where = '%s, step=%r, %s' % (it.get('cls', '?'), step, '; '.join(
+            '%d samples x=%s y=%s' % (len(s['x']), short(s['x'], 3), short(s['y'], 3)) for s in series))
+        if it['fn'] == 'regrid':
+            res = impl_regrid(series[0]['x'], series[0]['y'], step)
+            msgs = oracle_regrid(series[0]['x'], series[0]['y'], step, res[1]) if res[0] == 'ok' else []
+            name = 'regrid'
+        else:
+            res = impl_head_mapping(series, step)
+            msgs = oracle_mapping(series, step, res[1]) if res[0] == 'ok' else []
+            name = 'build_head_mapping'
+        if res[0] != 'ok':
+            out.violation('oracle', '%s raised %s on a well-formed finite series (%s)' % (name, res[1], where), case=case)
+            continue
+        for msg in msgs[:3]:
+            out.violation('oracle', '%s (%s): %s' % (name, where, msg[:700]), case=case)
+        if not msgs:
+            out.nontriv(('L', it['fn'], it.get('cls', '?'), step, len(series), tuple(series[0]['y'][:40])))
+
+
+def large_items(seed, tier):
+    """The steep and long inputs of one run (own random stream)."""
+    lrng = C.rng_for(seed, PROP, 'large')
+    items = []
+    # steep pairs: rising and falling in turn, 100-5000 levels within one pair of samples; every fourth through
+    # build_head_mapping with a second, ordinary series
+    nsteep = 16 if tier == 'quick' else 120
+    for k in range(nsteep):
+        # counts on both sides of 512 / 1024 / 4096 come round within one run, the very large ones are rarer
+        nlev = None if k % 4 else lrng.choice([c for c in G.STEEP_COUNTS if c <= 1100])
+        s = G.gen_steep_series(lrng, 'falling' if k % 2 else 'rising', nlev=nlev)
+        if k % 4 == 3 or k % 4 == 0 and k % 8:
+            other = G.gen_series(lrng, 'nonmono', 'offset', s['step'], nmax=7)
+            items.append(dict(fn='mapping', cls=s['cls'], step=s['step'],
+                              series=[dict(x=s['x'], y=s['y']), dict(x=other['x'], y=other['y'])]))
+        else:
+            items.append(dict(fn='regrid', cls=s['cls'], step=s['step'], series=[dict(x=s['x'], y=s['y'])]))
+    # long series: crossings in the pairs straddling samples 1000, 1024, 2048, 4096, 8192
+    shapes = list(G.LONG_SHAPES)
+    lrng.shuffle(shapes)
+    for j, n in enumerate(G.long_sizes(lrng, tier)):
+        s = G.gen_long_series(lrng, n, shape=shapes[j % len(shapes)])
+        one = dict(x=s['x'], y=s['y'])
+        items.append(dict(fn='regrid', cls=s['cls'], step=s['step'], series=[one]))
+        short_one = G.gen_series(lrng, 'falling', 'offset', s['step'], nmax=9)
+        items.append(dict(fn='mapping', cls=s['cls'], step=s['step'],
+                          series=[one, dict(x=short_one['x'], y=short_one['y'])]))
+    return items
 
 
 # ------------------------------------------------------------- call forms and call histories
@@ -493,6 +590,7 @@ def run(ctx, out):
     check_regrid(series, out, 'fl_regrid', extra=extra_r)
     sets = [G.gen_series_set(rng) for _ in range(nmap)]
     check_mapping(sets, out, 'fl_mapping', extra=extra_m)
+    check_large(large_items(seed, tier), out)
     out.rule = ('FL: seeded series of 10 shapes (rising, falling, non-monotone, flat pairs, samples exactly on a '
                 'level, one to three ulp beside it, denormals around level 0, zigzag, two-point rises, wide '
                 'jumps) x 4 kinds of abscissae (indices, UNIX epochs ~1.4e9, offsets, irregular floats) x steps '
@@ -504,6 +602,14 @@ def run(ctx, out):
                 'regrid / build_head_mapping with the SAME objects (same step again, another step): after every call '
                 'the objects are compared bit for bit with a pristine copy and the result is judged by the same oracle '
                 'and by the model against the pristine numbers (non-trivial: a second or third call judged right). '
+                'Steep and long inputs (FL-large, own stream, ORACLE ONLY - not sent to Coq, the exact-fraction oracle judges '
+                'them): 16 (120 thorough) short series with one pair of samples crossing 100-5000 levels (counts on both sides '
+                'of 512 / 1024 / 4096), rising and falling in turn, through regrid and build_head_mapping; 2 (7 thorough) '
+                'series of 1500-10000 samples (one past 4096, one run in two past 8192; never a multiple of 1000 / 1024 / '
+                '2048 / 4096 / 8192, one in four a block size + 1) of the shapes saw-tooth on a decline, saw-tooth about '
+                'one level, monotone recession, staircase, with a level crossing in EVERY pair of samples straddling a '
+                'multiple of those block sizes (measured: seam-pairs-of-block-*), each through regrid and, with a short '
+                'second series, through build_head_mapping. '
                 'Non-trivial: >= 2 reported crossings and (a level reported more than once, or a sample whose '
                 'scaled value is an integer, or a flat pair) for regrid; a level shared by >= 2 series and a '
                 'level crossed more than once by one series for the mapping; distinct by the input values.')
@@ -526,6 +632,8 @@ def replay(case, out):
         extra_r, extra_m = check_calls([case], out)
         check_regrid([], out, 'replay', extra=extra_r)
         check_mapping([], out, 'replay_m', extra=extra_m)
+    elif case['level'] == 'FL-large':
+        check_large([case], out)
     elif case['level'] == 'FL-regrid':
         check_regrid([dict(x=case['x'], y=case['y'], step=case['step'])], out, 'replay')
     else:
